@@ -59,11 +59,11 @@ def check(ctx):
     ctx.check(set(g('QQ_NS')) == {'N', 'S'} and set(g('QQ_EW')) == {'E', 'W'}, 'TBL', 'QQ_NS / QQ_EW',
               detail_bad="axis tuples changed", key="TBL|QQ_NS_EW")
 
-    fixpoint_loops(ctx, 'aliquot_parse', 1)
-    _consume(ctx)
-    _order(ctx)
-    _standardize(ctx)
-    _subdivide(ctx)
+    ctx.attempt(fixpoint_loops, 'aliquot_parse', 1)
+    ctx.attempt(_consume)
+    ctx.attempt(_order)
+    ctx.attempt(_standardize)
+    ctx.attempt(_subdivide)
 
 
 def _index_loops(fi):
